@@ -3,7 +3,7 @@
 # usage: tools/evalmut.sh <ID> <worktree-with-change> [extra check args]
 set -e
 ID=$1; WT=$2; shift 2
-COPY=/tmp/verif-eval-$ID
+COPY=${EVAL_COPY:-/tmp/verif-eval-$ID}
 rm -rf "$COPY"; mkdir -p "$COPY"
 rsync -a --exclude .git --exclude replay --exclude evidence /verif/ "$COPY"/
 mkdir -p "$COPY/replay" "$COPY/evidence"
